@@ -40,4 +40,12 @@ CHECKS['C14'] = {'engine': 'EX', 'design_ref': 'DESIGN.md 6 C14',
     'technique': 'bounded exhaustive enumeration of lattice data x every order and of every frequency subset (exact recovery) against explicit-loop data matrices and dense least squares',
     'text': 'Every lattice sequence and fixed family with every admissible order: orthogonality of the residual, minimum energy, agreement of the fast recursions (per-sample normalisation); every p-subset of grid frequencies for exact recovery.',
     'note': _EX_NOTE}
+CHECKS['C02'] = {'engine': 'EX', 'design_ref': 'DESIGN.md 6 C02',
+    'technique': 'bounded exhaustive enumeration of class x data type x N x NFFT ladder x sampling x order x every tone bin (deviation-bounded in quick, full product in thorough) against the k*fs/NFFT grid model',
+    'text': 'Every estimator class is constructed for every configuration of the product and every on-grid tone bin; length, axis, realness and peak placement are checked against the grid definition.',
+    'note': _EX_NOTE}
+CHECKS['C03'] = {'engine': 'EX', 'design_ref': 'DESIGN.md 6 C03',
+    'technique': 'bounded exhaustive metamorphic enumeration: every estimator (functions and classes) x every lattice / family data vector x every scalar of the alphabet, f(c x) against |c|^p f(x)',
+    'text': 'For every estimator, every data vector of the lattices and fixed families and every scalar of the alphabet, the scaled call is compared with the prescribed power of |c| times the unscaled result for every returned quantity.',
+    'note': _EX_NOTE}
 NOT_BUILT = {}
